@@ -7,10 +7,18 @@ use bmv_core::subj::*;
 use bmv_core::util::{J, guard, hex_short};
 
 pub fn run(ctx: &mut Ctx) {
-    match ctx.rng.below(12) {
+    if crate::ctx::focus() == "stream" {
+        return match ctx.rng.below(6) {
+            0..=2 => core_vs_stream(ctx),
+            3 => oneshot_vs_bytes(ctx),
+            _ => ctors(ctx),
+        };
+    }
+    match ctx.rng.below(13) {
         0..=2 => cfb_fronts(ctx),
         3..=4 => ofb_fronts(ctx),
         5..=6 => core_vs_stream(ctx),
+        12 => oneshot_vs_bytes(ctx),
         7..=9 => cts_whole_blocks(ctx),
         _ => ctors(ctx),
     }
@@ -168,7 +176,7 @@ fn core_vs_stream(ctx: &mut Ctx) {
     if fls.is_empty() {
         return;
     }
-    let fl = *ctx.rng.pick(&fls);
+    let fl = super::common::pick_flavor(ctx, &fls);
     let (Some(dc), Some(ds)) = (ctx.cfg.core(fl).cloned(), ctx.cfg.stream(fl).cloned()) else { return };
     let name = format!("{}/core-vs-stream", fl.name());
     ctx.subject(&name);
@@ -219,6 +227,86 @@ fn core_vs_stream(ctx: &mut Ctx) {
                 ctx.cell(format!("{}|{}|{}|{}|{}", name, ctx.cfg.name, len_class(n, w), s1, s2));
             }
         }
+    }
+}
+
+/// the keystream core's one-shot front-end (`try_apply_keystream_partial`) against the byte-level
+/// cipher built from the identical core state: same verdict and same bytes, anywhere in the
+/// keystream, including the last blocks before its end
+fn oneshot_vs_bytes(ctx: &mut Ctx) {
+    let fls: Vec<Flavor> = ctx.cfg.cores.iter().map(|d| d.flavor).filter(|f| f.seekable()).collect();
+    if fls.is_empty() {
+        return;
+    }
+    let fl = super::common::pick_flavor(ctx, &fls);
+    let (Some(dc), Some(ds)) = (ctx.cfg.core(fl).cloned(), ctx.cfg.stream(fl).cloned()) else { return };
+    let Some(mk_at) = ds.mk_at else { return };
+    let name = format!("{}/oneshot-core-vs-bytes", fl.name());
+    ctx.subject(&name);
+    let b = ctx.cfg.bs;
+    let limit = crate::model::limit_blocks(fl).unwrap();
+    let (iv, _) = stream_iv(ctx, fl, b);
+    let key = ctx.key.clone();
+    let near = ctx.rng.chance(2, 3);
+    let rem: u128 = if near { ctx.rng.below(6) as u128 } else { (limit - (wl::limb_u128(&mut ctx.rng) % limit)).max(9) };
+    let start = limit - rem;
+    let rem_b = rem.min(7) as usize * b;
+    let cands: [usize; 10] = [rem_b, rem_b + 1, rem_b.saturating_sub(1), rem_b + b, rem_b + 3 * b, 4 * b, 15.min(6 * b), 1, 0, ctx.rng.range(0, 7 * b)];
+    let len = *ctx.rng.pick(&cands);
+    let need = len.div_ceil(b) as u128;
+    let b2b = ctx.rng.coin();
+    let (data, _) = mode_data(ctx, len);
+    ctx.note("iv", J::s(hex_short(&iv)));
+    ctx.note("start_block", J::s(start.to_string()));
+    ctx.note("remaining_blocks", J::s(rem.to_string()));
+    ctx.note("len", J::i(len as i64));
+    ctx.note("b2b", J::Bool(b2b));
+    let fill = *ctx.rng.pick(&crate::ctx::ALL_FILLS);
+    let pre = fill.make(&mut ctx.rng, &data, len);
+    let r = guard(|| {
+        let mut core = (dc.mk)(Ctor::New, &key, &iv).unwrap();
+        core.set_block_pos(start);
+        let mut o1 = pre.clone();
+        let r1 = core.partial(b2b, &data, &mut o1);
+        let mut s = mk_at(&key, &iv, start);
+        let mut o2 = pre.clone();
+        let r2 = s.try_apply(if b2b { Form::B2b } else { Form::InPlace }, &data, &mut o2);
+        (r1, o1, r2, o2)
+    });
+    ctx.st.api_calls += 4;
+    let (r1, o1, r2, o2) = match r {
+        Ok(v) => v,
+        Err(p) => return ctx.panic_violation(&name, &p),
+    };
+    if r1 != r2 {
+        // structural signature: is the core's verdict the one the dependency's `len % bs` formula gives?
+        let m = len % b;
+        let formula_blocks = if m == 0 { 0 } else { m + 1 };
+        let formula_ok = (formula_blocks as u128) <= rem;
+        let sig = if formula_ok == r1 { "verdict-follows-len-mod-bs-formula" } else { "other" };
+        let which = if r1 { "core-accepts-bytes-refuse" } else { "core-refuses-bytes-accept" };
+        return ctx.violation(
+            &format!("C14/oneshot-core-vs-bytes/{}/{}", which, sig),
+            format!(
+                "{}: {} bytes ({} blocks) with {} blocks remaining: the core's try_apply_keystream_partial returned {} but the byte-level cipher built from the same core state returned {}",
+                name,
+                len,
+                need,
+                rem,
+                if r1 { "Ok" } else { "Err" },
+                if r2 { "Ok" } else { "Err" }
+            ),
+        );
+    }
+    if o1 != o2 {
+        let det = diff_desc("one-shot core front-end vs byte-level cipher", &o1, &o2, b);
+        return ctx.violation(&format!("C14/oneshot-core-vs-bytes-output/{}", fl.name()), det);
+    }
+    ctx.st.count(&format!("ok.{}", name));
+    ctx.st.count(if near { "oneshot.near-the-end" } else { "oneshot.elsewhere" });
+    if len > 0 {
+        ctx.nontrivial = true;
+        ctx.cell(format!("{}|{}|near={}|ok={}|b2b={}|r={}", name, ctx.cfg.name, near, r1, b2b, if len % b == 0 { 0 } else { 1 }));
     }
 }
 
